@@ -542,7 +542,8 @@ func GetVarFunc(query *Query, current Map, functionOptions *FunctionOptions, arg
 	if err != nil {
 		return nil, err
 	}
-	key := fmt.Sprintf("%v", args[0])
+	// the name of a variable is the decimal text of the argument (%v writes 1000000 as 1e+06)
+	key := TextOf(args[0])
 	query.options.varsMut.RLock()
 	defer query.options.varsMut.RUnlock()
 	value, ok := query.options.vars[key]
@@ -565,7 +566,8 @@ func SetVarFunc(query *Query, current Map, functionOptions *FunctionOptions, arg
 	if err != nil {
 		return nil, err
 	}
-	key := fmt.Sprintf("%v", args[0])
+	// the name of a variable is the decimal text of the argument (%v writes 1000000 as 1e+06)
+	key := TextOf(args[0])
 	value := args[1]
 	query.options.varsMut.Lock()
 	defer query.options.varsMut.Unlock()
